@@ -247,6 +247,14 @@ func runShard(r *vlib.Run, s *shard) {
 	}
 	// (the paranoid-mode livelock on a single-valued length table is a permanent recorded finding;
 	// its two deterministic cases live in corpus/C10 and are replayed first on every run)
+	// meek_lite: a Write blocked on the full queue while the round trip in flight stalls, then the
+	// link fails (every kind of failure)
+	if s.Name == "meek" && !aborted {
+		for a := 0; a < len(lib.MeekBlockedWriteFaults)*r.Scale(1, 4); a++ {
+			c := lib.Case{T: s.T, Role: "client", Stage: "data", Gen: "blocked-write-cut", Seed: rng.U64() >> 1, A: a}
+			runCase(r, s, d, &c)
+		}
+	}
 	// meek_lite: oversized 200 responses, every (size, framing) combination
 	if s.Name == "meek" && !aborted {
 		for a := 0; a < lib.MeekOversizedCombos; a++ {
